@@ -27,8 +27,8 @@ GNext ==
   \/ GSys /\ UNCHANGED hist
   \/ Close /\ UNCHANGED hist
   \/ \E a \in BOOLEAN : Startup(a) /\ hist' = Append(hist, [appending |-> a, ex |-> <<>>])
-  \/ \E k \in Kinds, s \in Shapes :
-        Session(k, s) /\ hist' = [hist EXCEPT ![Len(hist)].ex = Append(@, [k |-> k, shape |-> s])]
+  \/ \E k \in Kinds, s \in Shapes, b \in Bodies :
+        Session(k, s, b) /\ hist' = [hist EXCEPT ![Len(hist)].ex = Append(@, [k |-> k, shape |-> s, body |-> b])]
 
 GSpec == GInit /\ [][GNext]_gvars
 
